@@ -3,51 +3,36 @@ import MythVerif.Proofs.WsQueueTsoTac
 namespace MythVerif.WsqTso
 open MythVerif.Wsq
 
-set_option maxHeartbeats 4000000 in
 theorem t_kq0 (s s' : St) (p : Pid) : Inv s → s.tpc p = .kq0 → stepT s p = some s' → Inv s' := by
   intro h heq hs
-  cases h
   simp only [stepT, heq] at hs
   simp at hs; subst hs
-  simp only [ownerLocked, carry, resetting, ownerFlight] at *
-  tso_finish
+  tso_fastT h p []
 
-set_option maxHeartbeats 4000000 in
 theorem t_kq1 (s s' : St) (p : Pid) (t) : Inv s → s.tpc p = .kq1 t → stepT s p = some s' → Inv s' := by
   intro h heq hs
-  cases h
   simp only [stepT, heq] at hs
   split at hs
   all_goals (simp at hs; subst hs)
-  all_goals simp only [ownerLocked, carry, resetting, ownerFlight] at *
-  all_goals tso_finish
+  all_goals tso_fastT h p []
 
-set_option maxHeartbeats 4000000 in
 theorem t_pk1 (s s' : St) (p : Pid) : Inv s → s.tpc p = .pk1 → stepT s p = some s' → Inv s' := by
   intro h heq hs
-  cases h
   simp only [stepT, heq] at hs
   simp at hs; subst hs
-  simp only [ownerLocked, carry, resetting, ownerFlight] at *
-  tso_finish
+  tso_fastT h p []
 
-set_option maxHeartbeats 4000000 in
 theorem t_pk2 (s s' : St) (p : Pid) (b) : Inv s → s.tpc p = .pk2 b → stepT s p = some s' → Inv s' := by
   intro h heq hs
-  cases h
   simp only [stepT, heq] at hs
   split at hs
   all_goals (simp at hs; subst hs)
-  all_goals simp only [ownerLocked, carry, resetting, ownerFlight] at *
-  all_goals tso_finish
+  all_goals tso_fastT h p []
 
-set_option maxHeartbeats 4000000 in
 theorem t_pk3 (s s' : St) (p : Pid) (b) : Inv s → s.tpc p = .pk3 b → stepT s p = some s' → Inv s' := by
   intro h heq hs
-  cases h
   simp only [stepT, heq] at hs
   simp at hs; subst hs
-  simp only [ownerLocked, carry, resetting, ownerFlight] at *
-  tso_finish
+  tso_fastT h p []
 
 end MythVerif.WsqTso
